@@ -9,11 +9,11 @@ from layers.kern import layer_flux_conv, layer_flux_burgers, layer_dt
 from layers.integ import layer_int
 
 MODULE = 'Flowdyn.Props.C09'
-THEOREMS = core.theorems_in(['C09.lean'], 'Flowdyn.C09') + ['Flowdyn.C05.rk2_heun_ssp', 'Flowdyn.C05.rk3ssp_ssp'] + \
+THEOREMS = core.theorems_in(['C09.lean', 'C09b.lean'], 'Flowdyn.C09') + ['Flowdyn.C05.rk2_heun_ssp', 'Flowdyn.C05.rk3ssp_ssp'] + \
     ['Flowdyn.C12.%s_%s' % (l, t) for l in ('minmod', 'vanalbada', 'vanleer', 'superbee') for t in ('sign', 'le_two_min', 'zero_of_nonpos')]
-AUDIT_IMPORTS = ['Flowdyn.Props.C05', 'Flowdyn.Props.C12', 'Flowdyn.Props.C07b']
+AUDIT_IMPORTS = ['Flowdyn.Props.C05', 'Flowdyn.Props.C12', 'Flowdyn.Props.C09b', 'Flowdyn.Props.C07b']
 THEOREMS = THEOREMS + ['Flowdyn.C07.loop_preserves', 'Flowdyn.C07.run_preserves', 'Flowdyn.C07.run_preserves_data']
-PARTIAL = {"MUSCL": "only the coefficient bounds of the incremental form (limiter ratios in [0,2] from the C12 theorems, hence C in [0,1] at CFL<=1/2) are proved; the identification of the MUSCL convection/Burgers step with the incremental form on the pipeline model is not yet a theorem",
+PARTIAL = {"MUSCL": "linear convection with MUSCL and any Sweby-region limiter (all four limiters of the code, C09b.sweby_*) on a uniform periodic mesh at CFL<=1/2 is proved TVD and range preserving for a > 0 (muscl_step_tvd); a < 0 follows by the reflection equivariance (C13.rhs_mirror) but is not assembled as a theorem",
            "Burgers": "first-order and MUSCL Burgers (Roe flux without entropy fix, sign-changing data) are explored by the sweep only",
            "SSP lift": "convexity of TV and range + the Shu-Osher forms (C05) are proved; their composition for the stage loop with the time step frozen per iteration is by the sweep"}
 LEVEL_NOTE = "Harten's lemma on the cyclic index set; first-order upwind convection on any mesh at CFL<=1; MUSCL: see PARTIAL"
